@@ -286,7 +286,7 @@ def pick(rng, b, allow_edge=True):
     """a value for a parameter with bounds b: mostly inside, sometimes on / next to / outside the ends"""
     lo, hi, lc, hc = [float(x) for x in b]
     r = rng.random()
-    if r < 0.62 or not allow_edge and r < 0.8:
+    if r < 0.78 or not allow_edge and r < 0.9:
         if math.isfinite(lo) and math.isfinite(hi):
             v = lo + (hi - lo) * rng.uniform(0.02, 0.98)
         elif math.isfinite(lo):
@@ -297,7 +297,7 @@ def pick(rng, b, allow_edge=True):
             v = float(rng.normal(0, 3))
         v2 = nice(rng, v)
         return v2 if inside(b, v2) else v
-    if r < 0.8:
+    if r < 0.9:
         ends = [e for e in (lo, hi) if math.isfinite(e)]
         if not ends:
             return float(rng.normal(0, 3))
@@ -311,12 +311,14 @@ def pick(rng, b, allow_edge=True):
 
 
 def pos(rng):
-    return nice(rng, float(np.exp(rng.normal(0, 1))))
+    x = float(np.exp(rng.normal(0, 1)))
+    y = nice(rng, x)
+    return y if y > 0 else x
 
 
 def gen_bnd(rng):
     lo = [0.0, 0.1, 0.5, 1.0, -1.0, -INF, nice(rng, rng.uniform(0, 2))][int(rng.integers(7))]
-    if rng.random() < 0.08:                                   # invalid: upper <= lower
+    if rng.random() < 0.05:                                   # invalid: upper <= lower
         hi = lo if (math.isfinite(lo) and rng.random() < 0.5) else (lo - 1.0 if math.isfinite(lo) else -INF)
         if not math.isfinite(lo):
             lo, hi = 1.0, 1.0
@@ -328,6 +330,9 @@ def gen_bnd(rng):
 
 
 def gen_list(rng, first, n, bad):
+    if n > 1 and abs(first) < 1e-100:
+        # ratios l_i / l_0 would overflow to inf: infinite parameter values are outside the modelled space
+        first = pos(rng)
     v = [first] + [pos(rng) for _ in range(n - 1)]
     if bad and n > 1:
         v[int(rng.integers(1, n))] = [0.0, -pos(rng)][int(rng.integers(2))]
@@ -357,12 +362,12 @@ def gen_op(rng, cls, o, optn):
     if k in ("len_scale", "integral_scale"):
         n = 1 if rng.random() < 0.45 else int(rng.integers(1, d + 2))
         first = pick(rng, b[1]) if k == "len_scale" else (pos(rng) if rng.random() < 0.9 else pick(rng, b[1]))
-        return dict(k=k, v=gen_list(rng, first, n, rng.random() < 0.1), scalar=bool(rng.random() < 0.7))
+        return dict(k=k, v=gen_list(rng, first, n, rng.random() < 0.05), scalar=bool(rng.random() < 0.7))
     if k == "anis":
         n = int(rng.integers(0, d + 1)) if rng.random() < 0.8 else 1
         r = rng.random()
         v = [pick(rng, b[3]) if r < 0.3 else pos(rng) for _ in range(n)]
-        if n and rng.random() < 0.1:
+        if n and rng.random() < 0.05:
             v[int(rng.integers(n))] = [0.0, -pos(rng)][int(rng.integers(2))]
         return dict(k=k, v=[float(x) for x in v], scalar=bool(rng.random() < 0.7))
     if k == "angles":
@@ -373,7 +378,7 @@ def gen_op(rng, cls, o, optn):
             return dict(k=k, v=None)
         return dict(k=k, v=pos(rng) * (-1.0 if rng.random() < 0.25 else 1.0))
     if k == "dim":
-        return dict(k=k, v=int(rng.choice([0, 1, 2, 3, 4, 5], p=[0.05, 0.2, 0.25, 0.25, 0.2, 0.05])))
+        return dict(k=k, v=int(rng.choice([0, 1, 2, 3, 4, 5], p=[0.03, 0.2, 0.26, 0.26, 0.2, 0.05])))
     if k == "opt":
         i = int(rng.integers(len(optn)))
         # len_low / hurst enter var through pow on the TPL classes: no end-adjacent values there
@@ -514,6 +519,9 @@ class History:
             ierr = None
         except (ValueError, IndexError) as e:
             ierr = classify(e, names_of(self.cls)) or ("?", str(e))
+        except (ZeroDivisionError, FloatingPointError, OverflowError):
+            self.ctx.count(None, hist=dict(outcome="arith-exception (history ends, not compared)"))
+            return False
         st, val = model_construct(self.drv, self.ci, margs)
         if ierr is not None:
             if st != "err" or tuple(val) != tuple(ierr):
@@ -588,6 +596,10 @@ class History:
         except (ZeroDivisionError, FloatingPointError, OverflowError):
             ctx.count(None, hist=dict(outcome="arith-exception (history ends, not compared)"))
             return False
+        if ierr is not None and ierr[0] == 0 and not math.isfinite(b[ierr[1]][0 if ierr[2] in (1, 2) else 1]):
+            # a value overflowed to +-inf and hit an infinite bound end: infinite values are outside the modelled space
+            ctx.count(None, hist=dict(outcome="infinite value rejected (history ends, not compared)"))
+            return False
         st, val = apply_model(self.drv, self.ci, self.ms, op, self.optn)
         outcome = "ok" if ierr is None else ERR[ierr[0]]
         ctx.count((self.cls, self.kind, k, outcome), hist=dict(op=k, outcome=outcome, cls=self.cls, kind=self.kind,
@@ -628,8 +640,11 @@ class History:
                           [np.asarray(ffa[f]).tolist() for f in changed]), key)
         if self.cls not in TPL and not same_val(self.o["var"], self.o["var_raw"], True):
             self.viol("probe: var of a non-TPL class", "var != var_raw", "var-coupling")
-        # bounds after a value assignment
-        if k in VALUE_SETTERS and not all_inside(self.o):
+        # bounds after a value assignment / after set_arg_bounds(check_args=True) on a state that was inside
+        was_inside = all_inside(before)
+        checked_bounds_op = k == "set_arg_bounds" and op["chk"] and was_inside
+        plain_rescale = k == "rescale" and self.cls not in TPL and was_inside
+        if (k in VALUE_SETTERS or checked_bounds_op or plain_rescale) and not all_inside(self.o):
             self.viol("probe: value outside its bounds after a successful assignment",
                       "%s (%s): after %s a parameter lies outside its bounds" % (self.cls, self.kind, k),
                       "outside-after:%s" % k, dict(observed={f: np.asarray(v).tolist() for f, v in self.o.items()}))
@@ -811,9 +826,12 @@ def setup(ctx):
 
 
 def run(ctx):
+    import time
     setup(ctx)
     rng = C.Rng(ctx.seed, "C14")
+    t0 = time.time()
     proofs_ok = ctx.proofs("props/C14.v")
+    ctx.notes.append("proof stage %.1fs" % (time.time() - t0))
     tie_broken = []
     ok, out = C.build_driver("c14")
     if not ok:
@@ -826,11 +844,11 @@ def run(ctx):
     try:
         if drv is not None:
             tie_broken += witness_probes(ctx, drv)
-            per = 3 if ctx.tier == "quick" else 24
+            per = 4 if ctx.tier == "quick" else 60
             for rep in range(per):
                 for cls in CLASSES:
                     for kind, ll, tt in KINDS:
-                        n_ops = int(rng.integers(1, 13))
+                        n_ops = 12 if rng.random() < 0.5 else int(rng.integers(1, 13))
                         run_history(ctx, drv, rng, cls, kind, ll, tt, n_ops, tie_log)
                         n_hist += 1
     finally:
